@@ -336,7 +336,7 @@ def loadEnv (w : World) (manifestName : Bytes) : Except LoadErr (Loader × Env) 
 
 def argsOf (l : Loader) (a : InvArgs) : Run.Args :=
   { par := a.par, failuresLeft := a.k, adopt := a.adopt, manifest := 0, targets := a.targets,
-    defaults := l.defaults, pools := l.pools }
+    defaults := l.defaults, pools := l.pools, manifestFiles := some l.graph.files.length }
 
 def choices (adopt : Bool) (perms : List (List Nat)) (fin : List (Nat × Sched.Term)) : Sched.Choices Env :=
   { check := checkDirty, onSuccess := onSuccess, onAdopt := onAdopt, adopt := adopt, perms := perms, finishes := fin }
